@@ -42,4 +42,26 @@ theorem tie_cartopy_bounds (g : Grid) :
     Gen.cartopy_bounds (g.x0, g.y0, g.x1, g.y1) = C20.cartopyBounds g := by
   simp [Gen.cartopy_bounds, C20.cartopyBounds]
 
+/-- `_convert_XY_CF_to_Proj` as translated from /repo's current source (`crs.to_cf()` is required verbatim; its two entries
+are parameters): for a geostationary grid mapping whose x/y are scanning angles (unit absent, empty or `radians` — the unit is
+`None` after `_load_cf_axis_info` for every `rad…` / `deg…` spelling) first, last and spacing are multiplied by the satellite
+height, which is the model's `scaleAxis`; `nb` and `sign` are not touched; every other axis is returned as it came -/
+theorem tie_cf_geos_convert (a : C20.Axis) (unit : Option String) (gm : String) (h : Rat) :
+    Gen.cf_geos_convert unit gm h a.first a.last a.spacing =
+      (let scanning := decide (gm = "geostationary") && (unit = none || unit = some "" || unit = some "radians")
+       let b := if scanning then C20.scaleAxis h a else a
+       (b.first, b.last, b.spacing)) := by
+  rcases unit with _ | u
+  · by_cases hg : gm = "geostationary" <;> simp [Gen.cf_geos_convert, C20.scaleAxis, hg, mul_comm]
+  · by_cases hg : gm = "geostationary" <;> by_cases hu : u = "" <;> by_cases hr : u = "radians" <;>
+      simp [Gen.cf_geos_convert, C20.scaleAxis, hg, hu, hr, mul_comm]
+
+/-- metres (any unit text other than radians) are never rescaled, whatever the grid mapping -/
+theorem code_cf_metres_untouched (gm u : String) (h f l s : Rat) (hu : u ≠ "") (hr : u ≠ "radians") :
+    Gen.cf_geos_convert (some u) gm h f l s = (f, l, s) := by
+  simp [Gen.cf_geos_convert, hu, hr]
+
+example : Gen.cf_geos_convert none "geostationary" 35786023 (-1/10) (1/10) (1/100) = (-35786023/10, 35786023/10, 35786023/100) := by
+  decide +kernel
+
 end PyresampleModel.Tie
